@@ -8,7 +8,6 @@ NOT_APPLICABLE = {
     'C34': 'Call-signature rewrites: caller/callee agreement is whole-program and value-level.',
     'C37': 'SCC pipelines: behavioural equivalence of long transformation chains; not a code-shape fact.',
     'C38': 'Storage sufficiency of stack/pool allocation is arithmetic over runtime sizes.',
-    'C39': 'Parametrisation equivalence for matching inputs is value-level.',
     'C40': 'Idempotence is equality of the outputs of two runs; not decidable from code shape.',
     'C41': 'Well-formedness after every transformation lives in runtime scope chains; a generic undefined-name '
            'lint relabelled as this property would be dishonest.',
